@@ -1,6 +1,7 @@
 package c20
 
 import (
+	"context"
 	"errors"
 	"fmt"
 	"sort"
@@ -68,6 +69,17 @@ func (f *faults) fail(method string, n int) error {
 
 	switch kind {
 	case fInjected:
+		// "for any reason other than size": the reason varies with the call number (no reason is special to the server
+		// except that session/errors.go does not report connector.ErrOperationNotAllowed to the crash reporter)
+		switch n % 4 {
+		case 1:
+			return fmt.Errorf("remote says: %w", connector.ErrOperationNotAllowed)
+		case 2:
+			return connector.ErrOperationNotAllowed
+		case 3:
+			return fmt.Errorf("remote unreachable: %w", context.DeadlineExceeded)
+		}
+
 		return vconn.ErrInjected
 	case fSize:
 		if n%2 == 1 {
